@@ -394,6 +394,10 @@ def run(tier, procs=None, only=None):
     )
 
 
+# every real-library oracle of this property (each returns (reproduced, detail)); used to confirm structural facts that carry no replay of their own
+ALL_REPLAYS = [lambda c: replay_model('zncc')(c), lambda c: replay_model('ncc')(c), lambda c: replay_model('pcc')(c), lambda c: replay_model('fsc')(c)]
+
+
 def replay(data):
     key = data.get("key", "")
     kind = "fsc" if "fsc" in key or "ceil" in key else "pcc" if "pcc" in key else "ncc" if "[ncc" in key else "zncc"
